@@ -77,7 +77,7 @@ LowerOf(tab, r) == IF r >= 65 /\ r <= 90 THEN r + 32
 Store0 == [x |-> -1, y |-> -1, cl |-> <<>>]
 X0 == [pos |-> 0, env |-> <<>>, store |-> Store0, g |-> 0, log |-> <<>>, errs |-> <<>>,
        fmax |-> 0, fset |-> {}, fany |-> FALSE, hs |-> <<>>, seeds |-> <<>>, done |-> {},
-       ab |-> "none", abinfo |-> <<>>, cnt |-> 0, haz |-> {}]
+       ab |-> "none", abinfo |-> <<>>, cnt |-> 0, haz |-> {}, mseen |-> {}]
 Res(ok, val, x) == [ok |-> ok, val |-> val, x |-> x]
 Ab(x) == x.ab # "none"
 \* restore what backtracking restores, keep what survives failure
@@ -127,7 +127,10 @@ RECURSIVE Ev(_,_,_,_,_), EvSeq(_,_,_,_,_,_,_,_), EvCh(_,_,_,_,_,_,_), EvRep(_,_,
 Ev(C, e, x0, inv, rn) ==
   IF Ab(x0) THEN Res(FALSE, Nil, x0) ELSE
   LET n == C.G.nodes[e]
-      x == [x0 EXCEPT !.cnt = @ + 1]
+      \* hazard bookkeeping for known finding F2 only: a label-exporting node evaluated twice at one offset
+      x == IF n.xl THEN [x0 EXCEPT !.cnt = @ + 1, !.mseen = @ \cup {<<e, x0.pos>>},
+                                   !.haz = IF <<e, x0.pos>> \in x0.mseen THEN @ \cup {"memolabel"} ELSE @]
+           ELSE [x0 EXCEPT !.cnt = @ + 1]
       pos == x.pos
       d == Decode(C.inp, pos) IN
   IF C.opt.maxexpr > 0 /\ x.cnt > C.opt.maxexpr THEN Res(FALSE, Nil, [x EXCEPT !.ab = "budget", !.abinfo = <<pos, rn>>]) ELSE
